@@ -481,11 +481,14 @@ check("C20", "exploration",
       "identity). Oracle: peer routes answer 401 without identity whatever the parameters, report-collector routes never 401, no route "
       "exists only for anonymous callers. Live loopback matrix: {TLS on, off} x {inherited listener, self-bound port} x identity "
       "header {absent, A, B, C} x {step, prepare, echo}, client without certificate: with TLS the header has no effect (401), "
-      "without TLS it is honoured. distinct_nontrivial = mounted (method, path) pairs + live requests.",
+      "without TLS it is honoured. Client certificates (TLS): the test certificate of helper A, B, C x identity header {absent, A, C} x "
+      "{step, prepare, echo}: peer routes are served, the step records are filed under the identity of the certificate (received "
+      "back from exactly that helper through the transport) whatever the header says, the answers do not depend on the header; a "
+      "certificate the server does not know (3 of them) is refused. distinct_nontrivial = mounted (method, path) pairs + live requests.",
       [{"name": "auth", "config": "A", "test": "net::server::verif::c20::run", "timeout": {"quick": 900, "thorough": 3600},
-        "require": {"any": {"mounted_routes_mpc": 9, "mounted_routes_shard": 5, "live_requests": 40}}}],
+        "require": {"any": {"mounted_routes_mpc": 9, "mounted_routes_shard": 5, "live_requests": 40, "identity_observations": 9}}}],
       assumptions=["routes reachable only through segments absent from the http_serde path constants are not probed",
-                   "client-certificate identities (helper i with a header claiming j) are covered by the repository's own e2e tests, not here"],
+                   "client certificates on the MPC (helper-to-helper) server only; the shard-to-shard server's certificate matrix is not driven live"],
       exhaustive=True, engine="E5 domain",
       technique="exhaustive enumeration of the bounded path space x methods against the real axum routers; exhaustive configuration "
                 "matrix of live loopback servers",
